@@ -174,7 +174,7 @@ async def hold_body(sc: Sc, call: str, host: str, hold: float):
 
 
 CONTEXTS = ["alone", "alone-yielding-trace", "queued-behind-same", "queued-behind-other", "victim-queued", "shared-h2", "co-joins-connecting",
-            "victim-joins-connecting"]
+            "victim-joins-connecting", "two-cos-join-connecting"]
 
 
 def contexts_for(ctype: str, flavor: str):
@@ -185,7 +185,8 @@ def contexts_for(ctype: str, flavor: str):
         out.append("shared-h2")
     if TYPES[ctype].get("http2") and TYPES[ctype]["scheme"] == "https":
         # several requests assigned to ONE connection while it is still being established (slow connect / TLS)
-        out += ["co-joins-connecting", "victim-joins-connecting"]
+        # ("two-cos-...": two companions wait for the single stream slot a fresh HTTP/2 connection has)
+        out += ["co-joins-connecting", "victim-joins-connecting", "two-cos-join-connecting"]
     return out
 
 
@@ -200,7 +201,7 @@ async def run_injected(flavor: str, ctype: str, shape: str, context: str, inject
     if context == "alone-yielding-trace":
         sc.trace_yields = True
         context = "alone"
-    if context in ("co-joins-connecting", "victim-joins-connecting"):
+    if context in ("co-joins-connecting", "victim-joins-connecting", "two-cos-join-connecting"):
         net.latency = lambda kind, idx: 0.3 if kind in ("connect", "start_tls") else 0.0
     res = {"sc": sc, "outcomes": {}, "K": 0, "inj_phase": None, "fired": False}
     style, k = None, None
@@ -268,6 +269,13 @@ async def run_injected(flavor: str, ctype: str, shape: str, context: str, inject
                         await anyio.sleep(0.1)
                         return await victim_body(sc, "get", "co", "o.test")
                     tg.start_soon(co, "co", later2)
+                elif context == "two-cos-join-connecting":
+                    tg.start_soon(victim)
+                    for nm, dt in (("co", 0.1), ("co2", 0.2)):
+                        async def later4(nm=nm, dt=dt):
+                            await anyio.sleep(dt)
+                            return await victim_body(sc, "get", nm, "o.test")
+                        tg.start_soon(co, nm, later4)
                 elif context == "victim-joins-connecting":
                     tg.start_soon(co, "co", lambda: victim_body(sc, "get", "co", "o.test"))
 
